@@ -68,3 +68,28 @@ func H_C03_DoernerKeygenTamper() {
 	}
 	vsym.Reach("doerner-keygen-tamper-checked")
 }
+
+// H_C08_DoernerShareUpdate (field mode): the Sender's handling of the Receiver's opening (real round2S.StoreMessage) in a
+// refresh. The new share is old + own refresh scalar - peer's refresh scalar, and the scalar object the session was
+// started with — the caller's stored ConfigSender.SecretShare, which StartKeygen hands to the rounds without copying —
+// is left untouched, so that a refresh abandoned at any later point leaves the stored key material valid. The OT setup
+// state is arbitrary (havoc); only the share arithmetic is asserted.
+func H_C08_DoernerShareUpdate() {
+	group := curve.Secp256k1{}
+	helper, err := round.NewSession(round.Info{ProtocolID: "doerner/keygen", FinalRoundNumber: 3, SelfID: "s", PartyIDs: party.IDSlice{"r", "s"}, Threshold: 1, Group: group}, []byte("sid"), nil)
+	vsym.Assume(err == nil)
+	stored := sample.Scalar(rand.Reader, group) // the caller's long-lived share
+	before := group.NewScalar().Set(stored)
+	own := sample.Scalar(rand.Reader, group)
+	peer := sample.Scalar(rand.Reader, group)
+	snd := new(ot.CorreOTSetupSender)
+	vsym.Havoc(snd, "otsender")
+	r := &round2S{round1S: &round1S{Helper: helper, refresh: true, secretShare: stored, publicShare: stored.ActOnBase(), sender: snd},
+		chainKey: c14Fill(1), refreshScalar: own}
+	body := &message2R{ChainKey: c14Fill(7), PublicShare: peer.ActOnBase(), RefreshScalar: peer, OtMsg: &ot.CorreOTSetupReceiveRound2Message{}}
+	serr := r.StoreMessage(round.Message{From: "r", To: "s", Content: body})
+	vsym.Assert(serr == nil, "the opening is stored")
+	vsym.Assert(stored.Equal(before), "handling the peer's opening leaves the caller's stored secret share unchanged")
+	vsym.Assert(r.secretShare.Equal(group.NewScalar().Set(before).Add(own).Sub(peer)), "refreshed share = old share + own refresh scalar - peer's refresh scalar")
+	vsym.Reach("doerner-share-update-checked")
+}
